@@ -22,7 +22,7 @@ Written independently of the per-operator type switches of `Model.Ops`; only the
 (`Val`, `Prim`, `Outcome`, operator names) and the bytewise order `strLt` are shared.
 -/
 namespace Spec.Ops
-open Model.Ops (Val Prim Outcome ErrKind BinOp UnOp Str Res strLt decimal)
+open Model.Ops (Val Prim Outcome ErrKind BinOp UnOp Str Res strLt decimal Kind)
 
 section
 variable {F : Type} (P : Prim F)
@@ -200,6 +200,17 @@ def bothStr : Val F → Val F → Option (Str × Str)
 
 def mkBool (b : Bool) : Res F := .val (.bool b)
 
+/-- the string form `.` gives a scalar operand (`docs/data-types.md`: `(string) 42` is `"42"`,
+`(string) true` is `"1"`, `(string) null` is `""`; PHP: `false` is `""`; a float is written the way the
+language prints it, `P.fmtG`); arrays / objects undocumented -/
+def render : Val F → Option Str
+  | .str s => some s
+  | .int i => some (decimal i)
+  | .float f => some (P.fmtG f)
+  | .bool b => some (if b then [49] else [])
+  | .null => some []
+  | _ => none
+
 def spaceship (a b : Val F) : Option (Res F) :=
   match order P a b, order P b a with
   | some (lt, _), some (gt, _) =>
@@ -235,9 +246,9 @@ def eval (op : BinOp) (a b : Val F) : Option (Res F) :=
   | .land => some (mkBool (truthy P a && truthy P b))
   | .lor => some (mkBool (truthy P a || truthy P b))
   | .dot =>
-      match bothStr a b with
-      | some (x, y) => some (.val (.str (x ++ y)))
-      | none => none
+      match render P a, render P b with
+      | some x, some y => some (.val (.str (x ++ y)))
+      | _, _ => none
 
 /-- documented result of a unary operator / cast -/
 def evalUn (op : UnOp) (a : Val F) : Option (Res F) :=
@@ -262,5 +273,42 @@ def evalUn (op : UnOp) (a : Val F) : Option (Res F) :=
   | _, _ => none
 
 end
+
+/-! ## result kinds the language fixes whatever the operands are -/
+
+/-- `.` always yields a string; comparison, identity and logical operators a bool; `<=>` an int; `/` a
+float; bit operations and shifts an int. `none`: the kind depends on the operands (`+ - * ** %`). -/
+def fixedKind : BinOp → Option Kind
+  | .dot => some .str
+  | .eq | .ne | .seq | .sne | .lt | .le | .gt | .ge | .land | .lor => some .bool
+  | .cmp => some .int
+  | .quo => some .float
+  | .band | .bor | .bxor | .shl | .shr => some .int
+  | .add | .sub | .mul | .pow | .rem => none
+
+def fixedKindUn : UnOp → Option Kind
+  | .not | .castb => some .bool
+  | .casti | .bnot => some .int
+  | .castf => some .float
+  | .neg => none
+
+/-- operators defined on **every** operand pair (never an error): `.`, the comparison / identity
+operators, `<=>`, `&&`, `||` -/
+def alwaysValue : BinOp → Bool
+  | .dot | .eq | .ne | .seq | .sne | .lt | .le | .gt | .ge | .cmp | .land | .lor => true
+  | _ => false
+
+def alwaysValueUn : UnOp → Bool
+  | .not | .castb => true
+  | _ => false
+
+/-- `- * ** %` and unary `-` yield a number (int or float) whenever they yield a value -/
+def numericResult : BinOp → Bool
+  | .sub | .mul | .pow | .rem => true
+  | _ => false
+
+def isNumberKind : Kind → Bool
+  | .int | .float => true
+  | _ => false
 
 end Spec.Ops
